@@ -402,6 +402,10 @@ def parse_R(line):
                                 "cpos": int(p[8]), "cstat": int(p[9])})
         elif p[0] == "M":
             d["final"] = {"dir": int(p[1]), "map": ints(p[2]), "inlen": int(p[3]), "outlen": int(p[4])}
+        elif p[0] == "TI":
+            d["ti"] = (int(p[1]), int(p[2]))
+        elif p[0] == "D":
+            d["disp"] = p[1]
         elif p[0] == "A":
             d["allocs"].append(tuple(int(x) for x in p[1:6]))
         elif p[0] == "K":
